@@ -74,7 +74,8 @@ Qed.
 
 (* ---------------------------------------------------------------------- *)
 (* Exit-binding criterion on the regenerated table: no binding that can end
-   the prompt (accept 13, KeyboardInterrupt 14, EOF 15, unmodelled-may-exit 98)
+   the prompt (accept 13, KeyboardInterrupt 14, EOF 15, operate-and-get-next 21,
+   insert-comment 22, unmodelled-may-exit 98)
    can match keys lying strictly inside a longer binding, i.e. for every
    offset j with j + len p < len q the patterns p and q[j : j+len p] cannot
    match the same keys.  Filters are ignored (all rows taken as active): the
@@ -88,7 +89,7 @@ Fixpoint pats_overlap (p q : list Z) : bool :=
   | _ :: _, [] => false
   end.
 Definition may_exit (r : row) : bool :=
-  (r_eff r =? 13) || (r_eff r =? 14) || (r_eff r =? 15) || (r_eff r =? 98).
+  (r_eff r =? 13) || (r_eff r =? 14) || (r_eff r =? 15) || (r_eff r =? 21) || (r_eff r =? 22) || (r_eff r =? 98).
 Fixpoint inside (p q : list Z) (fuel : nat) : bool :=     (* p overlaps q at some offset, ending before q's last key *)
   match fuel with
   | O => false
